@@ -29,10 +29,18 @@ Fixpoint forallb2 {A B} (p : A -> B -> bool) (l1 : list A) (l2 : list B) : bool 
   | _, _ => false
   end.
 
-(* tolerances on fractions (absolute), per generator stream; see harness/c09.py for the measurements *)
-Definition tol_well : Q := 1 # 1000000000.       (* rates within one decade: measured <= 1e-13 *)
-Definition tol_wide : Q := 1 # 1000000.          (* rates within two decades: measured <= 4e-11 *)
-Definition tol_interp : Q := 1 # 100000000.      (* extra relative slack for raysect interpolation *)
+(* Absolute tolerance on fractions.  scipy's lsq_linear loses accuracy when some charge state is
+   populated below double-precision resolution of the total; the class is decided here, by the model:
+   resolved   (every exact fraction >= 1e-12): measured worst deviation 1.6e-10 over 25 000 points -> 1e-7
+   unresolved (some exact fraction <  1e-12): measured deviations up to 5e-3 with a heavy tail (the
+              recorded finding c09:lsq-illconditioned): *ambiguous*, the solver's output is not compared
+              (tolerance 1 on fractions); the matrix handed to the solver still is, exactly. *)
+Definition res_threshold : Q := 1 # 1000000000000.
+Definition tol_resolved : Q := 1 # 10000000.
+Definition tol_unresolved : Q := 1.
+Definition resolved (f : list Q) : bool := forallb (fun m => Qle_bool res_threshold m) f.
+Definition base_tol (f : list Q) : Q := if resolved f then tol_resolved else tol_unresolved.
+Definition tol_interp : Q := 1 # 100000000.      (* extra slack for values read through raysect interpolation *)
 Definition rel_matrix : Q := pow2 (-46).         (* matrix entries: a handful of roundings *)
 
 Record point := { pZ : nat; p_ion : list Q; p_rec : list Q; p_cx : option (list Q); p_ne : Q; p_nd : Q }.
@@ -47,10 +55,12 @@ Definition wf_point (p : point) : bool :=
   && negb (Qle_bool (p_ne p) 0) && Qle_bool 0 (p_nd p).
 
 Inductive out :=
-| OFrac (tol : Q) (f : list Q)                        (* fractions of charge states 0..Z *)
-| ODens (tol : Q) (n_el : Q) (d : list Q)             (* from_elementdensity at one point *)
-| ONeut (tol : Q) (sp : list (list Q)) (d : list Q)   (* match_plasma_neutrality at one point *)
-| OLerp (tol : Q) (w : Q) (other : list Q) (sa sb : Q) (v : list Q)
+| OFrac (slack : Q) (f : list Q)                        (* fractions of charge states 0..Z *)
+| ODens (slack : Q) (n_el : Q) (d : list Q)             (* from_elementdensity at one point *)
+| ONeut (slack : Q) (ztol : Q) (sp : list (list Q)) (d : list Q)
+    (* match_plasma_neutrality at one point; ztol = absolute noise allowed around zero (0 for the direct
+       entry points, interpolation rounding of the neighbouring knots for interpolated ones) *)
+| OLerp (slack : Q) (w : Q) (other : list Q) (sa sb : Q) (v : list Q)
     (* value of a linear interpolator between this point (weight 1-w, its model values times sa) and a
        neighbouring point whose model values are [other] (weight w, times sb); sa = sb = 1 for fractions,
        the element densities of the two knots for from_elementdensity *)
@@ -65,32 +75,36 @@ Fixpoint weigh_from (k : nat) (l : list Q) : list Q :=
 Definition weighted_charge (d : list Q) : Q := sum_red (weigh_from 0 d).
 Definition species_charge_red (sp : list (list Q)) : Q := sum_red (map weighted_charge sp).
 
-Definition check_out (p : point) (f : list Q) (o : out) : bool :=
+Definition check_out (p : point) (f : list Q) (tol0 : Q) (o : out) : bool :=
   match o with
-  | OFrac tol g =>
+  | OFrac slack g =>
+      let tol := tol0 + slack in
       forallb2 (fun m v => absle m v tol) f g
       && forallb (fun v => Qle_bool (- tol) v && Qle_bool v (1 + tol)) g
       && absle (sum_red g) 1 (tol * qnat (S (pZ p)))
-  | ODens tol n_el d =>
+  | ODens slack n_el d =>
+      let tol := tol0 + slack in
       forallb2 (fun m v => absle (m * n_el) v (tol * n_el)) f d
       && absle (sum_red d) n_el (tol * qnat (S (pZ p)) * n_el)
-  | ONeut tol sp d =>
+  | ONeut slack ztol sp d =>
+      let tol := tol0 + slack in
       let zm := weighted_charge f in
       let sc := species_charge_red sp in
       let e := Qred (let e := p_ne p - sc in if Qle_bool 0 e then e else 0) in     (* = element_ne (p_ne p) sp *)
       let n_i := Qred (e / zm) in
       let amp := Qred (1 + qnat (pZ p * S (pZ p)) / zm) in       (* error amplification through 1/z_mean *)
       let ntot := sum_red d in
-      forallb (Qle_bool 0) d
+      forallb (Qle_bool (- ztol)) d
       (* charge of the returned densities + the given species = n_e (when that is feasible) *)
       && (if Qle_bool sc (p_ne p)
           then absle (weighted_charge d + sc) (p_ne p) (pow2 (-40) * p_ne p)
-          else forallb (fun v => Qeq_bool v 0) d)
+          else forallb (fun v => absle v 0 ztol) d)
       (* the shape is the closed form *)
-      && forallb2 (fun m v => absle (m * ntot) v (tol * ntot)) f d
+      && forallb2 (fun m v => absle (m * ntot) v (tol * ntot + ztol)) f d
       (* and the values are the model's match_neutrality_point *)
-      && forallb2 (fun m v => absle (m * n_i) v (Qred (tol * amp * n_i))) f d
-  | OLerp tol w other sa sb v =>
+      && forallb2 (fun m v => absle (m * n_i) v (Qred (tol * amp * n_i + ztol))) f d
+  | OLerp slack w other sa sb v =>
+      let tol := (let t1 := base_tol other in if Qle_bool tol0 t1 then t1 else tol0) + slack in
       let smax := if Qle_bool sa sb then sb else sa in
       forallb2 (fun ab x => absle ((1 - w) * (fst ab * sa) + w * (snd ab * sb)) x (tol * smax))
                (combine f other) v
@@ -102,7 +116,7 @@ Definition check_out (p : point) (f : list Q) (o : out) : bool :=
   end.
 
 Definition check_point (p : point) (outs : list out) : bool :=
-  wf_point p && (let f := p_cf p in forallb (check_out p f) outs).
+  wf_point p && (let f := p_cf p in let tol0 := base_tol f in forallb (check_out p f tol0) outs).
 
 (* the model's fractions, for use as [other] in OLerp *)
 Definition model_fractions (p : point) : list Q := p_cf p.
